@@ -40,13 +40,17 @@ EXPLANATION = (
     'known findings are reported; (D3) __getitem__ and __setitem__ map '
     'each (type of first index, type of second index) case to the same '
     'conversion helper with the same arguments (decided by abstract '
-    'interpretation of both decision trees over the nine type cases); (D4) in '
+    'interpretation of both decision trees over the nine type cases; len(X) and '
+    'X.shape[0] are one spelling for attributes only ever bound to ndarray '
+    'constructors), and both expand a row slice against the number of rows; (D4) in '
     '_get_iis_from_slices row-indexed arrays (stops/lengths) are subscripted '
     'with row ids (the elements of the row selection), never with positions in '
     'the selection; row ids are repeated by the column count of the same '
     'position; stops are clipped to the row lengths; '
     '(D5) flat->2-D conversion for masks uses the last start <= index; (D6) '
-    'simple observers; (D7) rectangular fast path of the constructor is '
+    'simple observers (effective = last definition in the class body): __len__, '
+    'flatten, dtype, size = number of scalars of the flat data, shape[0] = number '
+    'of rows, attribute-style observers are plain properties; (D7) rectangular fast path of the constructor is '
     'rows x row-length and guarded by the equal-lengths test, (row, column) '
     'pairs are enumerated row-major. '
     'Equality with the list-of-rows model for every index expression is not '
@@ -137,6 +141,15 @@ def _expand(fi, expr, stop=(), strict=True, depth=8):
             return e
         if isinstance(e, (ast.expr_context, ast.operator, ast.unaryop, ast.boolop, ast.cmpop)):
             return e
+        if isinstance(e, ast.Call) and getattr(e, '_from_np_array', False) and isinstance(e.func, ast.Attribute) \
+                and isinstance(e.func.value, ast.Name):
+            # `name.copy()` that the front end spelled from np.array(name): once the name is
+            # expanded to a non-name expression it is np.array(<expr>) again (as FuncInfo.expand)
+            inner = ex(e.func.value, d)
+            if not isinstance(inner, ast.Name):
+                return ast.copy_location(ast.Call(
+                    func=ast.Attribute(value=ast.Name(id='np', ctx=ast.Load()), attr='array', ctx=ast.Load()),
+                    args=[inner], keywords=[]), e)
         new = type(e)()
         for f in e._fields:
             val = getattr(e, f, None)
@@ -146,7 +159,7 @@ def _expand(fi, expr, stop=(), strict=True, depth=8):
                 setattr(new, f, ex(val, d))
             else:
                 setattr(new, f, val)
-        for a in ('lineno', 'col_offset', 'end_lineno', 'end_col_offset'):
+        for a in ('lineno', 'col_offset', 'end_lineno', 'end_col_offset', '_from_np_array', '_canon_origin'):
             if hasattr(e, a):
                 setattr(new, a, getattr(e, a))
         return new
@@ -644,13 +657,62 @@ def d2_slices(ck, mod):
 # ---------------------------------------------------------------------------
 # D3: abstract interpretation of the index dispatch
 
+_NDARRAY_MAKERS = {'np.array', 'np.asarray', 'np.append', 'np.concatenate', 'np.zeros', 'np.ones', 'np.empty', 'np.full',
+                   'np.arange', 'np.cumsum', 'np.diff', 'np.repeat', 'np.hstack', 'np.fromiter', 'np.ascontiguousarray'}
+
+
+def _ndarray_attrs(mod, cls):
+    """Names A such that EVERY binding of <self>.A in a method of the class is
+    the result of an ndarray constructor (so len(self.A) == self.A.shape[0]
+    wherever both are defined).  Bindings from outside the class are not seen:
+    they are the subject of the write-side property."""
+    good, poisoned = set(), set()
+    for q, f in mod.functions.items():
+        if not q.startswith(cls + '.') or '.<locals>.' in q:
+            continue
+        ps = params(f)
+        if not ps:
+            continue
+        sn = ps[0]
+        for s in walk_local(f):
+            if isinstance(s, ast.Assign):
+                tgts, val = s.targets, s.value
+            elif isinstance(s, (ast.AugAssign, ast.AnnAssign)):
+                tgts, val = [s.target], None if isinstance(s, ast.AugAssign) else s.value
+            elif isinstance(s, (ast.For, ast.AsyncFor)):
+                tgts, val = [s.target], None
+            elif isinstance(s, (ast.With, ast.AsyncWith)):
+                tgts, val = [i.optional_vars for i in s.items if i.optional_vars is not None], None
+            elif isinstance(s, ast.Delete):
+                tgts, val = s.targets, None
+            else:
+                continue
+            for t in tgts:
+                for x in ast.walk(t):
+                    if isinstance(x, ast.Attribute) and isinstance(x.value, ast.Name) and x.value.id == sn and not isinstance(x.ctx, ast.Load):
+                        if x is t and val is not None and isinstance(val, ast.Call) and \
+                                (call_name(val) in _NDARRAY_MAKERS or getattr(val, '_from_np_array', False)):
+                            good.add(x.attr)
+                        else:
+                            poisoned.add(x.attr)
+        for c in calls_in(f):
+            if call_name(c) == 'setattr' and c.args and isinstance(c.args[0], ast.Name) and c.args[0].id == sn:
+                k = const_value(c.args[1]) if len(c.args) > 1 else None
+                if isinstance(k, str):
+                    poisoned.add(k)
+                else:
+                    return set()
+    return good - poisoned
+
+
 class _Sub(ast.NodeTransformer):
     """Substitute the symbolic environment into an expression; calls to
     functions of the module are put in keyword form (sorted), INDEX[0] /
-    INDEX[1] are the two components of a tuple index."""
+    INDEX[1] are the two components of a tuple index; X.shape[0] is spelled
+    len(X) for the expressions X in `nd` (known ndarrays)."""
 
-    def __init__(self, env, mod):
-        self.env, self.mod = env, mod
+    def __init__(self, env, mod, nd=()):
+        self.env, self.mod, self.nd = env, mod, nd
 
     def visit_Name(self, n):
         if isinstance(n.ctx, ast.Load) and n.id in self.env:
@@ -662,6 +724,9 @@ class _Sub(ast.NodeTransformer):
         if isinstance(n.value, ast.Name) and n.value.id == 'INDEX' and const_value(n.slice) in (0, 1) and \
                 not isinstance(const_value(n.slice), bool):
             return ast.Name(id='FIRST' if const_value(n.slice) == 0 else 'SECOND', ctx=ast.Load())
+        if self.nd and isinstance(n.value, ast.Attribute) and n.value.attr == 'shape' and const_value(n.slice) == 0 and \
+                not isinstance(const_value(n.slice), bool) and isinstance(n.ctx, ast.Load) and u(n.value.value) in self.nd:
+            return ast.Call(func=ast.Name(id='len', ctx=ast.Load()), args=[n.value.value], keywords=[])
         return n
 
     def visit_Call(self, n):
@@ -676,8 +741,8 @@ class _Sub(ast.NodeTransformer):
         return n
 
 
-def _sub(expr, env, mod):
-    e = _Sub(env, mod).visit(_copy.deepcopy(expr))
+def _sub(expr, env, mod, nd=()):
+    e = _Sub(env, mod, nd).visit(_copy.deepcopy(expr))
     ast.fix_missing_locations(e)
     return canon(e)
 
@@ -756,10 +821,11 @@ class _Dispatch:
     that reads/stores through self._data[...] / self._array[...] or that
     re-dispatches to the same method."""
 
-    def __init__(self, mod, fn):
+    def __init__(self, mod, fn, nd_attrs=()):
         self.mod, self.fn = mod, fn
         ps = params(fn)
         self.selfn, self.idxn = ps[0], ps[1]
+        self.nd = {'%s.%s' % (self.selfn, a) for a in nd_attrs}
         self.budget = 400
 
     def table(self, kind):
@@ -779,7 +845,7 @@ class _Dispatch:
                 return [('opaque', 'too many paths', None, s)]
             rest = todo[i + 1:]
             if isinstance(s, ast.If):
-                t = _truth(_sub(s.test, env, self.mod), kind, self.selfn)
+                t = _truth(_sub(s.test, env, self.mod, self.nd), kind, self.selfn)
                 outs = []
                 if t is not False:
                     outs += self.run(list(s.body) + rest, env, kind)
@@ -792,13 +858,13 @@ class _Dispatch:
             if sink is not None:
                 return [sink]
             if isinstance(s, ast.Return):
-                if s.value is not None and self.selfn in names_loaded(_sub(s.value, env, self.mod)):
+                if s.value is not None and self.selfn in names_loaded(_sub(s.value, env, self.mod, self.nd)):
                     return [('opaque', 'return value not recognised: %s' % u(s.value)[:60], None, s)]
                 return [('none', 'returns without touching the data', None, s)]
             if isinstance(s, ast.Raise):
                 return [('raise', u(s.exc)[:60] if s.exc is not None else 'raise', None, s)]
             if isinstance(s, ast.Assign):
-                val = _sub(s.value, env, self.mod)
+                val = _sub(s.value, env, self.mod, self.nd)
                 for t in s.targets:
                     self.bind(t, val, env, kind)
             elif isinstance(s, (ast.AugAssign, ast.AnnAssign)):
@@ -816,7 +882,7 @@ class _Dispatch:
             else:
                 for i, te in enumerate(t.elts):
                     if isinstance(te, ast.Name):
-                        env[te.id] = _sub(ast.Subscript(value=val, slice=ast.Constant(value=i), ctx=ast.Load()), {}, self.mod)
+                        env[te.id] = _sub(ast.Subscript(value=val, slice=ast.Constant(value=i), ctx=ast.Load()), {}, self.mod, self.nd)
 
     def sink(self, s, env):
         exprs = []
@@ -829,7 +895,7 @@ class _Dispatch:
         elif isinstance(s, ast.Expr):
             exprs = [s.value]
         for e in exprs:
-            e2 = _sub(e, env, self.mod)
+            e2 = _sub(e, env, self.mod, self.nd)
             for c in ast.walk(e2):
                 if isinstance(c, ast.Call) and isinstance(c.func, ast.Attribute) and u(c.func.value) == self.selfn and c.func.attr == self.fn.name:
                     a0 = c.args[0] if c.args else (c.keywords[0].value if c.keywords else None)
@@ -868,7 +934,8 @@ def d3_dispatch(ck, mod):
     rule = 'C05.D3.dispatch-agreement'
     G, W = CLS + '.__getitem__', CLS + '.__setitem__'
     fg, fw = mod.func(G), mod.func(W)
-    dg, dw = _Dispatch(mod, fg), _Dispatch(mod, fw)
+    nd = _ndarray_attrs(mod, CLS)
+    dg, dw = _Dispatch(mod, fg, nd), _Dispatch(mod, fw, nd)
 
     def show(o):
         return '%s %s' % (o[0], o[1])
@@ -932,10 +999,46 @@ def d3_dispatch(ck, mod):
                  'a[%s] must return %s' % (kind[0], want_whole.replace('INDEX', 'i')))
 
 
+def d3_row_count(ck, mod):
+    """A row slice is expanded against the NUMBER OF ROWS (reader and writer
+    agreeing on a wrong length would pass the agreement rule)."""
+    rule = 'C05.D3.row-count'
+    F = '_slice_to_list'
+    fs = mod.func(F)
+    sps = params(fs)
+    if len(sps) < 2:
+        ck.missing(rule, '_slice_to_list(slice, length): parameters not recognised')
+        return
+    n = 0
+    for q in (CLS + '.__getitem__', CLS + '.__setitem__'):
+        f = mod.func(q)
+        fi = finfo(mod, f)
+        sn = params(f)[0]
+        forms = [x.replace('%s', sn) for x in ('len(%s.lengths)', '%s.lengths.shape[0]', '%s.lengths.size', 'len(%s._array)',
+                                               '%s._array.shape[0]', 'len(%s)', 'len(%s.starts)', '%s.starts.shape[0]', '%s.starts.size')]
+        for c in calls_in(f):
+            if call_name(c) != F:
+                continue
+            b = _bind_call(mod, c)
+            if b is None:
+                ck.missing(rule, 'arguments of %s in %s not recognised' % (u(c)[:80], q))
+                continue
+            n += 1
+            ln = b.get(sps[1])
+            if ln is None:
+                ck.bad(rule, mod, c, q, u(c)[:160], 'the row slice must be expanded with length = number of rows: without it an open or '
+                       'negative row bound raises instead of selecting rows')
+                continue
+            v = _classify(_expand(fi, ln), forms, {sn})
+            ck.decide(v, rule, mod, c, q, '%s with length %s' % (u(c)[:100], _xu(fi, ln)[:80]), 'row slice expanded against the number of rows',
+                      'the row slice must be expanded against the number of rows (len(self.lengths))')
+    ck.floor(rule, n, 2, 'row-slice expansions in reader and writer')
+
+
 # ---------------------------------------------------------------------------
 # D4
 
-_ALLOC = {'np.zeros', 'np.ones', 'np.full', 'np.empty'}
+_ALLOC ={'np.zeros', 'np.ones', 'np.full', 'np.empty'}
 _LIKE = {'np.zeros_like', 'np.ones_like', 'np.full_like', 'np.empty_like', 'np.minimum', 'np.maximum', 'np.clip',
          'np.asarray', 'np.array', 'np.abs', 'np.where'}
 
@@ -1349,18 +1452,63 @@ def d5_where(ck, mod):
     # simple observers
     obs = {'__len__': ['len(%s._array)', 'len(%s.lengths)', '%s.lengths.size', '%s.lengths.shape[0]'],
            'flatten': ['%s._data.flatten()', '%s._data.ravel().copy()', '%s._data.reshape(-1).copy()'],
-           'dtype': ['%s._data.dtype']}
+           'dtype': ['%s._data.dtype'],
+           # number of scalars = size of the concatenation of the rows (len(_data) only counts entries along
+           # the ragged axis: it differs as soon as the elements are multi-dimensional)
+           'size': ['%s._data.size', 'np.size(%s._data)', '%s._data.flatten().size', '%s.flatten().size', '%s._data.ravel().size',
+                    'np.prod(%s._data.shape)', 'int(np.prod(%s._data.shape))', 'math.prod(%s._data.shape)', 'len(%s._data.flatten())',
+                    'len(%s._data.ravel())', 'len(%s.flatten())']}
+    why_obs = {'size': 'size must return the number of scalars of the flat data (self._data.size == sum of the row sizes == flatten().size); '
+                       'len(self._data) counts entries along the ragged axis only and is smaller for multi-dimensional elements'}
     for name, forms in obs.items():
+        # the EFFECTIVE definition: the last binding of the name in the class body (Module.functions keeps the last one)
         f = mod.func(CLS + '.' + name)
+        ck.analysed(mod, f)
         fo = finfo(mod, f)
         sn = params(f)[0]
-        forms = [x % sn for x in forms]
+        forms = [x.replace('%s', sn) for x in forms]
         r = [x for x in returns_of(f) if x.value is not None]
         if len(r) != 1:
             ck.missing('C05.D6.observers', 'single return of %s.%s' % (CLS, name))
             continue
         v = _classify(_expand(fo, r[0].value), forms, {sn})
-        ck.decide(v, 'C05.D6.observers', mod, r[0], CLS + '.' + name, u(r[0]), '%s = %s' % (name, forms[0]), '%s must return %s' % (name, forms[0]))
+        ck.decide(v, 'C05.D6.observers', mod, r[0], CLS + '.' + name, u(r[0]), '%s = %s' % (name, forms[0]),
+                  why_obs.get(name, '%s must return %s' % (name, forms[0])))
+    # the attribute-style observers are properties (a.size / a.shape / a.dtype / a.starts are values, not bound methods)
+    for name in ('dtype', 'shape', 'size', 'starts'):
+        f = mod.functions.get(CLS + '.' + name)
+        if f is None:
+            ck.missing('C05.D6.observers.property', 'definition of %s.%s' % (CLS, name))
+            continue
+        decs = [dotted(d) or u(d) for d in f.decorator_list]
+        if any(d in ('property', 'builtins.property', 'functools.cached_property', 'cached_property') for d in decs):
+            ck.check('property' in decs or 'builtins.property' in decs, 'C05.D6.observers.property', mod, f, CLS + '.' + name,
+                     '@%s def %s' % (decs[0], name), 'attribute read evaluates the observer on the current state',
+                     '%s must be a plain property recomputed on every read (a cached property goes stale after append / __setitem__)' % name)
+        elif decs:
+            ck.missing('C05.D6.observers.property', 'decorators of %s.%s not recognised: %s' % (CLS, name, ', '.join(decs)[:100]))
+        else:
+            ck.bad('C05.D6.observers.property', mod, f, CLS + '.' + name, 'def %s (no @property)' % name,
+                   '%s is read as an attribute: without @property the read returns a bound method' % name)
+    # shape: every result is a tuple whose first entry is the number of rows
+    f = mod.func(CLS + '.shape')
+    ck.analysed(mod, f)
+    fo = finfo(mod, f)
+    sn = params(f)[0]
+    nrows = [x.replace('%s', sn) for x in ('len(%s.lengths)', '%s.lengths.shape[0]', '%s.lengths.size', 'len(%s._array)', '%s._array.shape[0]', 'len(%s)')]
+    n = 0
+    for r in returns_of(f):
+        if r.value is None:
+            continue
+        xv = _xc(fo, r.value)
+        if not isinstance(xv, ast.Tuple) or not xv.elts:
+            ck.missing('C05.D6.observers.shape', 'result of %s.shape is not a tuple display: %s' % (CLS, u(xv)[:100]))
+            continue
+        n += 1
+        v = _classify(xv.elts[0], nrows, {sn})
+        ck.decide(v, 'C05.D6.observers.shape', mod, r, CLS + '.shape', u(r)[:160], 'shape[0] = number of rows',
+                  'the first entry of shape must be the number of rows (len(self.lengths))')
+    ck.floor('C05.D6.observers.shape', n, 1, 'tuple results of shape')
 
 
 # ---------------------------------------------------------------------------
@@ -1480,6 +1628,7 @@ def check(ck):
     d1_negatives(ck, mod)
     d2_slices(ck, mod)
     d3_dispatch(ck, mod)
+    d3_row_count(ck, mod)
     d4_index_space(ck, mod)
     d5_where(ck, mod)
     return EXPLANATION
